@@ -16,6 +16,7 @@ import SharkVerif.Lemmas.Contrib
 import SharkVerif.Model.Contrib3D
 import SharkVerif.Lemmas.DCFront
 import SharkVerif.Lemmas.RatLift
+import SharkVerif.Lemmas.Subset2D
 namespace SharkVerif.C13
 open SharkVerif.Pareto SharkVerif.HV SharkVerif.DC
 
@@ -446,5 +447,53 @@ theorem nds_rational (d : Nat) (hd : 0 < d) (m : Nat) (hm : 2 ≤ m) (S : List Q
   apply List.map_congr_left
   intro p hp
   rw [rankQ_eq hd S p hS (hS p hp)]; rfl
+
+/-! ## HypervolumeSubsetSelection2D
+
+Model: `Model/Subset2D.lean`.  Proof: `Lemmas/Subset2DEnv.lean` (the deque of `upperEnvelope` is the upper convex hull
+of the lines inserted so far; its front is the maximum at the current abscissa), `Lemmas/Subset2D.lean` (invariant of
+the dynamic programme, back-tracking, fill-up, `createFront`). -/
+
+open SharkVerif.SSP in
+/-- **C13 (upper envelope)**: for lines with strictly increasing slopes queried at non-decreasing abscissae the deque
+algorithm returns, at every position `i`, the maximum over `j ≤ i` of `f_j(x_i)`, together with an index attaining it. -/
+theorem ssp_upperEnvelope_eq_max (fs : List (LF × Int))
+    (hsorted : fs.Pairwise (fun u v => u.2 ≤ v.2 ∧ u.1.a < v.1.a)) :
+    (envGo [] fs).map (·.1) = envNaive fs :=
+  (upperEnvelope_eq_max fs hsorted).1
+
+open SharkVerif.SSP in
+/-- **C13 (the dynamic programme is optimal)**: on a front (first objective strictly increasing, second strictly
+decreasing, reference point at the origin) `hypSSP` marks exactly `k` distinct positions and no sub-list of at most
+`k` front points has a larger dominated hypervolume. -/
+theorem ssp_hypSSP_optimal (F : List P2) (hF : IsFront F) (k : Nat) (hk : 1 ≤ k) (hkn : k ≤ F.length) :
+    (hypSSP F k).Nodup ∧ (hypSSP F k).length = k ∧ (∀ i ∈ hypSSP F k, i < F.length) ∧
+    ∀ T : List P2, T.Sublist F → T.length ≤ k →
+      hvSpec (T.map P2.pt) [0, 0] ≤ hvSpec ((hypSSP F k).map (ptOf F)) [0, 0] :=
+  hypSSP_optimal hF hk hkn
+
+open SharkVerif.SSP in
+/-- **C13 (two-dimensional subset selection returns a subset of maximal hypervolume)**, operator level, with the
+intended lexicographic comparator: for every finite 2-D set weakly dominating the reference point (dominated points,
+duplicates, equal coordinates, points on the boundary of the box included) and `1 ≤ k ≤` size of the front, exactly
+`k` flags are set and the selected points have the largest hypervolume of all `k`-element sub-lists. -/
+theorem ssp_select_optimal (S : List Pt) (r : Pt) (k : Nat) (hS : ∀ p ∈ S, p.length = 2) (hr : r.length = 2)
+    (hle : ∀ p ∈ S, leAll p r = true) (hk : 1 ≤ k) (hkF : k ≤ (createFrontWith ptLtFixed S r).length) :
+    (selectWith ptLtFixed S k r).count true = k ∧
+    hvSpec (selectedWith ptLtFixed S k r) r = bestSubsetHv S k r :=
+  ⟨(select_optimal hS hr hle hk hkF).2.1, select_eq_bestSubsetHv hS hr hle hk hkF⟩
+
+open SharkVerif.SSP in
+/-- … and for the operator **as written in the C++** (comparator regenerated from the source) on inputs with pairwise
+distinct first coordinates.  `_partial`: with equal first coordinates the comparator of the C++ (`f2 < rhs.f1`) is
+not a strict weak order — finding C13-SSP-LEXLESS, 17 such points make `std::sort` read out of bounds — so no
+statement about `std::sort` is possible there; the theorem above is what holds after the one-token repair. -/
+theorem ssp_select_optimal_partial (S : List Pt) (r : Pt) (k : Nat) (hS : ∀ p ∈ S, p.length = 2) (hr : r.length = 2)
+    (hle : ∀ p ∈ S, leAll p r = true) (hd : S.Pairwise (fun p q => px p ≠ px q))
+    (hk : 1 ≤ k) (hkF : k ≤ (createFront S r).length) :
+    hvSpec (SharkVerif.SSP.selected S k r) r = bestSubsetHv S k r :=
+  selected_eq_bestSubsetHv_distinct hS hr hle hd hk hkF
+
+example : SharkVerif.SSP.IsFront [⟨-5, -1, 0⟩, ⟨-3, -2, 1⟩, ⟨-1, -4, 2⟩] := ⟨by decide, by decide⟩
 
 end SharkVerif.C13
